@@ -2339,12 +2339,10 @@ class Attribute(object):
             if not is_reverse_call: undo_funcs = []
             undo = []
             def undo_func():
-                obj._status_ = status
                 obj._wbits_ = wbits
-                if objects_to_save_needs_undo:
-                    assert objects_to_save
-                    obj2 = objects_to_save.pop()
-                    assert obj2 is obj and obj._save_pos_ == len(objects_to_save)
+                if objects_to_save_needs_undo:  # (the status is restored only if this call has changed it: the caller can be a delete of this very object)
+                    obj._status_ = status
+                    remove_from_save_queue(objects_to_save, obj)
                     obj._save_pos_ = None
 
                 if old_val is NOT_LOADED: obj._vals_.pop(attr)
@@ -4627,6 +4625,14 @@ def throw_object_was_deleted(obj):
     throw(OperationWithDeletedObjectError, '%s was %s'
           % (safe_repr(obj), obj._status_.replace('_', ' ')))
 
+def remove_from_save_queue(objects_to_save, obj):
+    # Used by undo functions. The object is usually the last one in the queue, but an object deleted by a nested cascade
+    # is queued before the object which owns it and is undone first
+    pos = obj._save_pos_
+    assert objects_to_save[pos] is obj
+    if pos == len(objects_to_save) - 1: objects_to_save.pop()
+    else: objects_to_save[pos] = None
+
 def unpickle_entity(d):
     entity = d.pop('__class__')
     cache = entity._database_._get_cache()
@@ -5025,9 +5031,7 @@ class Entity(object, metaclass=EntityMeta):
 
             def undo_func():
                 if obj._status_ == 'marked_to_delete':
-                    assert objects_to_save
-                    obj2 = objects_to_save.pop()
-                    assert obj2 is obj
+                    remove_from_save_queue(objects_to_save, obj)
                     if save_pos is not None:
                         assert objects_to_save[save_pos] is None
                         objects_to_save[save_pos] = obj
